@@ -130,7 +130,33 @@ def s_move(ex, st, fr, ins, name, argv):
 
 
 def s_from_cstr(ex, st, fr, ins, name, argv):
-    _set(st, argv[0], norm([cstr(ex, st, argv[1])]))
+    p = argv[1]
+    info = st.extra.get('snprintf_bufs', {}).get((p.region, p.off)) if isinstance(p, Ptr) else None
+    if info is not None:
+        # the NUL-terminated output of an earlier snprintf into this buffer: complete when the length fits, silently
+        # truncated to size - 1 characters otherwise (C semantics); one successor state for each case
+        notation, prec, x, size, r = info
+        fits = tm.mk('icmp', 'i1', 'slt', r, tm.ic('i32', size))
+        res, normal = ins.res, ins.a[3]
+        out = []
+        for cond, trunc in ((fits, False), (tm.negate(fits), True)):
+            if tm.is_ic(cond) and cond.args[0] == 0:
+                continue
+            s2 = st.clone()
+            s2.assume(cond)
+            piece = ('fmt', notation, prec, x.ty, x)
+            if trunc:
+                _set(s2, argv[0], (('truncated', size - 1, piece),))
+                s2.events.append(('insert-truncated', notation, prec, x.ty, x, size - 1))
+            else:
+                _set(s2, argv[0], (piece,))
+                s2.events.append(('insert', notation, prec, x.ty, x))
+            f2 = s2.frames[-1]
+            if normal is not None:
+                ex.jump(s2, f2, normal)
+            out.append(s2)
+        return out
+    _set(st, argv[0], norm([cstr(ex, st, p)]))
 
 
 def s_from_ptr_len(ex, st, fr, ins, name, argv):
@@ -217,6 +243,9 @@ def snprintf_(ex, st, fr, ins, name, argv):
         _snp[0] += 1
         reg.cells[o] = (1, 'i8', tm.arg('i8', 'fmtbyte%d' % _snp[0]))
     st.events.append(('snprintf', fmt, prec, x))
+    d = dict(st.extra.get('snprintf_bufs', {}))
+    d[(buf.region, buf.off)] = ('scientific' if m.group(3) == 'e' else 'fixed', prec, x, size.args[0], r)
+    st.extra['snprintf_bufs'] = d
     return r
 
 
